@@ -217,6 +217,62 @@ func checkC13(w *Worker) {
 		x.Case(fmt.Sprint("long-names", which), true)
 		verify(x, c, want, dec, []string{"log", "database", "database-resolved"}[which])
 	})
+	// every special scenario whose amounts are exact (harness/specials.go) through the three exports
+	var c13Specials []specialScenario
+	for _, sc := range specialScenarios() {
+		if sc.Exact {
+			c13Specials = append(c13Specials, sc)
+		}
+	}
+	w.Explore("special-scenarios", ExploreOpts{ShardDepth: 2}, func(x *Exec) {
+		sc := c13Specials[x.Choose(len(c13Specials), "input:scenario")]
+		which := x.Choose(3, "input:export")
+		var want []csvWant
+		files := map[string]string{"food.yaml": renderBook(sc.Book), "log.yaml": renderLog(sc.Log)}
+		switch which {
+		case 0:
+			for _, d := range sc.Log {
+				var order []string
+				sum := map[string]*big.Rat{}
+				for _, e := range d.Entries {
+					if sum[e.Name] == nil {
+						sum[e.Name] = new(big.Rat)
+						order = append(order, e.Name)
+					}
+					sum[e.Name].Add(sum[e.Name], rat(e.Val))
+				}
+				for _, n := range order {
+					want = append(want, csvWant{strings.ReplaceAll(d.Date, "/", "-"), n, sum[n]})
+				}
+			}
+			verify(x, appCase{Args: []string{"csv", "log"}, Files: files}, want, 3, "log")
+		case 1:
+			for _, r := range sc.Book {
+				for _, i := range r.Ings {
+					want = append(want, csvWant{r.Name, i.Name, rat(i.Val)})
+				}
+			}
+			verify(x, appCase{Args: []string{"csv", "database"}, Files: files}, want, 2, "database")
+		default:
+			if sc.Name == "repeated-heading-in-the-book" {
+				x.Case("skip: which of two definitions counts is not C13's business", false)
+				return
+			}
+			res := refResolve(sc.Book)
+			var names []string
+			for n := range res {
+				names = append(names, n)
+			}
+			sort.Strings(names)
+			for _, n := range names {
+				for _, e := range sortedKeys(res[n]) {
+					want = append(want, csvWant{n, e, res[n][e]})
+				}
+			}
+			verify(x, appCase{Args: []string{"csv", "database-resolved"}, Files: files}, want, 2, "database-resolved")
+		}
+		x.Case(fmt.Sprint(sc.Name, which), true)
+	})
 	w.Explore("csv-log-wide-days", ExploreOpts{ShardDepth: 2}, func(x *Exec) {
 		D := []int{8, 9, 10, 16, 17, 33}[x.Choose(6, "input:distinct-foods")]
 		rep := []int{0, 3, 7, 8}[x.Choose(4, "input:repeated-food")]
